@@ -208,6 +208,11 @@ impl Polyline {
     #[verifier::external_body]
     pub fn vertices(&self) -> (r: &[Point2]) ensures r@ == self.verts() { unimplemented!() }
 }
+impl Clone for Polyline {
+    #[verifier::external_body]
+    fn clone(&self) -> (r: Polyline) ensures r.verts() == self.verts() { unimplemented!() }
+}
+
 // R12 target: `(lo..=hi).contains(&t)` on f64 (std RangeInclusive::contains = lo <= t && t <= hi)
 #[verifier::external_body]
 pub fn vf_in_closed_range(lo: f64, hi: f64, t: f64) -> (r: bool) ensures r == (rv(lo) <= rv(t) <= rv(hi)) { (lo..=hi).contains(&t) }
